@@ -378,7 +378,7 @@ var reActions = []string{"Send", "Close(false)", "Close(true)"}
 
 // runReentrancy registers a listener on event that performs action on the session once,
 // triggers the event, and waits (real time) for the goroutine that emitted it to come back.
-func runReentrancy(event, action, transport string) (key, msg string, reached bool) {
+func runReentrancy(event, action, transport string, late bool) (key, msg string, reached bool) {
 	so := &config.ServerOptions{}
 	so.SetPingInterval(time.Hour)
 	so.SetPingTimeout(time.Hour)
@@ -390,6 +390,11 @@ func runReentrancy(event, action, transport string) (key, msg string, reached bo
 			return
 		}
 		entered.Store(true)
+		if late {
+			// not at once: by now the client has received what was sent and has polled again (or
+			// written its next frame), so the transport is in its "request pending" state
+			time.Sleep(30 * time.Millisecond)
+		}
 		switch action {
 		case "Send":
 			s.Send(types.NewStringBufferString("re-entrant"), nil, nil)
@@ -549,25 +554,27 @@ func TestC18(t *testing.T) {
 	for _, tr := range []string{"polling", "websocket"} {
 		for _, ev := range reEvents {
 			for _, ac := range reActions {
-				idx := cell
-				cell++
-				if !r.Mine(idx) {
-					continue
-				}
-				id := fmt.Sprintf("reentrancy-%s-%s-%s", tr, ev, ac)
-				r.Begin(id, map[string]string{"event": ev, "action": ac, "transport": tr})
-				key, msg, reached := runReentrancy(ev, ac, tr)
-				r.End(id)
-				r.Case("re/"+tr+"/"+ev+"/"+ac, reached)
-				if reached {
-					r.Obs("reentrancy_cells_exercised", 1)
-				} else {
-					r.Obs("reentrancy_cells_not_reached", 1)
-				}
-				if key != "" {
-					r.Violation(key, msg, map[string]string{"event": ev, "action": ac, "transport": tr})
-				} else if msg != "" {
-					r.Inconclusive(msg)
+				for _, late := range []bool{false, true} {
+					idx := cell
+					cell++
+					if !r.Mine(idx) {
+						continue
+					}
+					id := fmt.Sprintf("reentrancy-%s-%s-%s-late=%v", tr, ev, ac, late)
+					r.Begin(id, map[string]any{"event": ev, "action": ac, "transport": tr, "late": late})
+					key, msg, reached := runReentrancy(ev, ac, tr, late)
+					r.End(id)
+					r.Case(fmt.Sprintf("re/%s/%s/%s/late=%v", tr, ev, ac, late), reached)
+					if reached {
+						r.Obs("reentrancy_cells_exercised", 1)
+					} else {
+						r.Obs("reentrancy_cells_not_reached", 1)
+					}
+					if key != "" {
+						r.Violation(key, msg, map[string]any{"event": ev, "action": ac, "transport": tr, "action_delayed_until_the_client_has_polled_again": late})
+					} else if msg != "" {
+						r.Inconclusive(msg)
+					}
 				}
 			}
 		}
